@@ -236,6 +236,13 @@ class Prop(Check):
         "ParamsLoad.C27_closure",
         "ParamsLoad.C27_terminates",
         "ParamsLoad.C27_cached_main",
+        "ParamsLoad.C27_created_exact",
+        "ParamsLoad.C27_created_iff",
+        "ParamsLoad.C27_closure_trans",
+        "ParamsLoad.C27_assert_holds",
+        "ParamsLoad.C27_accept_total",
+        "ParamsLoad.C27_fuel_mono",
+        "ParamsLoad.C27_fuel_indep",
     ]
     DRIVER = "Drivers/ParamsLoad.lean"
     QUICK_CASES = 400
